@@ -1,5 +1,6 @@
 import NemoVerif.Drive.Common
 import NemoVerif.Models.Match
+import NemoVerif.Models.MatchHist
 
 namespace NemoVerif.Drive.C04
 open Lean NemoVerif NemoVerif.Drive NemoVerif.Match
@@ -82,8 +83,93 @@ def stmtOfJson (j : Json) : Except String MatchStmt := do
     pure (.bare (← (← j.getObjVal? "name").getStr?) (← (← j.getObjVal? "is_lower").getBool?) args)
   | _ => throw s!"bad stmt form {form}"
 
+/-- template of a statement parameter: {"v": i} | {"cat": [i, lit]} | {"l": [..]} | {"d": [[k, tm], ..]} | a literal `Val` -/
+partial def tmOfJson (j : Json) : Except String Tm :=
+  if let .ok v := j.getObjVal? "v" then do
+    let i ← v.getNat?; pure (.var i)
+  else if let .ok v := j.getObjVal? "cat" then do
+    let a ← v.getArr?
+    if h : a.size = 2 then do
+      let i ← a[0].getNat?; let l ← valOfJson a[1]; pure (.cat i l)
+    else throw "bad cat"
+  else if let .ok v := j.getObjVal? "l" then do
+    let a ← v.getArr?; let xs ← a.toList.mapM tmOfJson; pure (.list xs)
+  else if let .ok v := j.getObjVal? "d" then do
+    let kvs ← tmKvsOfJson v; pure (.dict kvs)
+  else do
+    let v ← valOfJson j; pure (.lit v)
+where
+  tmKvsOfJson (j : Json) : Except String (List (String × Tm)) := do
+    let a ← j.getArr?
+    a.toList.mapM fun e => do
+      let p ← e.getArr?
+      if h : p.size = 2 then do
+        let k ← p[0].getStr?; let x ← tmOfJson p[1]; pure (k, x)
+      else throw "bad tm entry"
+
+def stepOfJson (j : Json) : Except String Step := do
+  match optStr j "op" with
+  | some "set" =>
+    let i ← (← j.getObjVal? "var").getNat?
+    let v ← valOfJson (← j.getObjVal? "val")
+    pure (.set i v)
+  | some "noise" => pure (.ev { kind := .plain, name := "Other", args := [("x", .int 1)] })
+  | some "ev" =>
+    let args ← kvsOfJson (← j.getObjVal? "args")
+    pure (.ev { kind := .plain, name := "Ev", args := args })
+  | _ => throw "bad step"
+
 def handle (op : String) (j : Json) : Except String Json := do
   match op with
+  | "hist" =>
+    -- a statement in a flow instance per tag, over a whole history; per step: tags that advance, or "err"
+    --   form "bare":   `match Ev(<params>, t=<tag>)`            (plain events `Ev`)
+    --   form "action": `match $a.Finished(<params>)`            (action events `<name>Finished` of the actions in "actions")
+    let params ← tmOfJson.tmKvsOfJson (← j.getObjVal? "tmpl")
+    let init ← (← (← j.getObjVal? "init").getArr?).toList.mapM valOfJson
+    let tags ← (← (← j.getObjVal? "tags").getArr?).toList.mapM fun t => t.getInt?
+    let loop ← (← j.getObjVal? "loop").getBool?
+    let tagParam := (j.getObjVal? "tagparam").toOption != some (Json.bool false)
+    let rx ← rxOfJson (← j.getObjVal? "rx")
+    let form := (optStr j "form").getD "bare"
+    -- actions known to the runtime: [[uid, name, start_args], ..]; the statement refers to the one at index "k"
+    let actions : List ActionObj ← match j.getObjVal? "actions" with
+      | .ok (.arr a) => a.toList.mapM fun e => do
+          let p ← e.getArr?
+          if h : p.size = 3 then do
+            let u ← p[0].getStr?; let n ← p[1].getStr?; let kvs ← kvsOfJson p[2]
+            pure ({ uid := u, name := n, startArgs := kvs } : ActionObj)
+          else throw "bad action"
+      | _ => pure []
+    let k := ((j.getObjVal? "k").toOption.bind (·.getNat?.toOption)).getD 0
+    let sa : String → Option (List (String × Val)) := fun u => (actions.find? (·.uid == u)).map (·.startArgs)
+    let stepOf (sj : Json) : Except String Step := do
+      match optStr sj "op" with
+      | some "aev" =>
+        let args ← kvsOfJson (← sj.getObjVal? "args")
+        pure (.ev { kind := .action, name := ← (← sj.getObjVal? "name").getStr?, args := args, actionUid := optStr sj "action_uid" })
+      | _ => stepOfJson sj
+    let steps ← (← (← j.getObjVal? "steps").getArr?).toList.mapM stepOf
+    let headOf (t : Int) : Except String Head :=
+      if form == "action" then
+        match actions[k]? with
+        | some a => pure { stmt := fun env => (Tm.evalKvs env params).map fun ps => MatchStmt.actionRef a "Finished" ps,
+                           evName := a.name ++ "Finished", loop := loop }
+        | none => throw "bad action index"
+      else pure { stmt := bareStmt "Ev" false params (if tagParam then [("t", .int t)] else []), evName := "Ev", loop := loop }
+    let heads ← tags.mapM fun t => do let h ← headOf t; pure (t, h)
+    let runs : List (Int × List Outcome) := heads.map fun (t, h) => (t, runHist rx sa init h steps)
+    let per : List Json := (List.range steps.length).map fun n =>
+      let outs := runs.map fun (t, os) => (t, os.getD n .idle)
+      if outs.any (fun p => p.2 == .fail) then Json.str "err"
+      else Json.arr ((outs.filter (fun p => p.2 == .hit)).map fun p => Json.num (JsonNumber.fromInt p.1)).toArray
+    -- kind of the statement's reference event in the initial environment (hypothesis of the plain-statement theorem)
+    let refKind : Json := match heads.head? with
+      | some (_, h) => match (h.stmt init).bind refEvent with
+        | some r => .str (match r.kind with | .plain => "plain" | .internal => "internal" | .action => "action")
+        | none => .null
+      | none => .null
+    pure (Json.mkObj [("hits", Json.arr per.toArray), ("ref_kind", refKind)])
   | "score" =>
     let a ← valOfJson (← j.getObjVal? "arg")
     let r ← valOfJson (← j.getObjVal? "ref")
